@@ -41,6 +41,10 @@ func GetProtocolSchema(protocol *ProtocolDefinition, symbolTable SymbolTable) *P
 
 			schema.Types = append(schema.Types, removeComments(t))
 
+			// the types that the computed fields mention are not part of the schema either
+			self.VisitChildren(t)
+			return
+
 		case *SimpleType:
 			self.Visit(symbolTable.GetGenericTypeDefinition(t.ResolvedDefinition))
 			for _, typeArg := range t.ResolvedDefinition.GetDefinitionMeta().TypeParameters {
